@@ -387,6 +387,295 @@ fn decode_all(bytes: &[u8], rng: &mut StdRng) -> Vec<(String, (String, usize, us
     out
 }
 
+
+// ------------------------------------------------------------------------------------------
+// C02: round trips
+
+/// independent wire walker (no hickory code): splits a message into its parts
+#[derive(Default, Debug)]
+struct Walk {
+    counts: [usize; 4],
+    /// offsets of every owner / question name, in wire order
+    name_ats: Vec<usize>,
+    /// per record after the questions: (type, rdata start, rdata end, ttl)
+    recs: Vec<(u16, usize, usize, u32)>,
+    end: usize,
+}
+
+fn skip_name(b: &[u8], mut i: usize) -> Option<usize> {
+    loop {
+        let l = *b.get(i)? as usize;
+        if l == 0 {
+            return Some(i + 1);
+        }
+        if l & 0xC0 == 0xC0 {
+            b.get(i + 1)?;
+            return Some(i + 2);
+        }
+        if l & 0xC0 != 0 {
+            return None;
+        }
+        i += 1 + l;
+    }
+}
+
+fn walk(b: &[u8]) -> Option<Walk> {
+    if b.len() < 12 {
+        return None;
+    }
+    let c = |i: usize| u16::from_be_bytes([b[i], b[i + 1]]) as usize;
+    let mut w = Walk { counts: [c(4), c(6), c(8), c(10)], ..Default::default() };
+    let mut i = 12;
+    for _ in 0..w.counts[0] {
+        w.name_ats.push(i);
+        i = skip_name(b, i)? + 4;
+        if i > b.len() {
+            return None;
+        }
+    }
+    for _ in 0..(w.counts[1] + w.counts[2] + w.counts[3]) {
+        w.name_ats.push(i);
+        let n = skip_name(b, i)?;
+        if n + 10 > b.len() {
+            return None;
+        }
+        let t = u16::from_be_bytes([b[n], b[n + 1]]);
+        let ttl = u32::from_be_bytes([b[n + 4], b[n + 5], b[n + 6], b[n + 7]]);
+        let rdlen = u16::from_be_bytes([b[n + 8], b[n + 9]]) as usize;
+        let end = n + 10 + rdlen;
+        if end > b.len() {
+            return None;
+        }
+        w.recs.push((t, n + 10, end, ttl));
+        i = end;
+    }
+    w.end = i;
+    Some(w)
+}
+
+/// RR types whose RDATA holds no domain name at all: preserved byte for byte by any re-encoding
+fn nameless(t: u16) -> bool {
+    matches!(t, 1 | 10 | 13 | 16 | 28 | 37 | 43 | 44 | 48 | 50 | 51 | 52 | 53 | 59 | 60 | 61 | 62 | 99 | 257 | 65280..=65534)
+}
+/// RR types with names that must not be compressed (RFC 3597 section 4): preserved byte for byte
+/// as long as the received RDATA did not itself use (invalid) compression
+fn uncompressible_names(t: u16) -> bool {
+    matches!(t, 33 | 35 | 46 | 47 | 64 | 65)
+}
+
+/// the fuzz target's notion of equality (Update0 vs empty OPT is an equality artefact)
+fn record_equal(a: &Record, b: &Record) -> bool {
+    if a.record_type() != b.record_type() || a.name != b.name || a.ttl != b.ttl || a.dns_class != b.dns_class {
+        return false;
+    }
+    if a.data == b.data {
+        return true;
+    }
+    match (&a.data, &b.data) {
+        (RData::Update0(_), RData::OPT(o)) | (RData::OPT(o), RData::Update0(_)) => o.as_ref().is_empty(),
+        _ => false,
+    }
+}
+fn case_equal(a: &Name, b: &Name) -> bool {
+    a.iter().eq(b.iter())
+}
+fn messages_equal(a: &Message, b: &Message) -> Vec<&'static str> {
+    let mut d = Vec::new();
+    if a.metadata != b.metadata {
+        d.push("header");
+    }
+    if a.queries != b.queries || !a.queries.iter().zip(b.queries.iter()).all(|(x, y)| case_equal(&x.name, &y.name)) {
+        d.push("question");
+    }
+    for (n, x, y) in [("answer", &a.answers, &b.answers), ("authority", &a.authorities, &b.authorities), ("additional", &a.additionals, &b.additionals)] {
+        if x.len() != y.len() || !x.iter().zip(y.iter()).all(|(r, s)| record_equal(r, s) && case_equal(&r.name, &s.name)) {
+            d.push(n);
+        }
+    }
+    if a.edns != b.edns {
+        d.push("edns");
+    }
+    if a.signature != b.signature {
+        d.push("tsig");
+    }
+    d
+}
+
+fn random_name(rng: &mut StdRng) -> Name {
+    let zones = ["example.com.", "Example.COM.", "sub.example.com.", "a.very.deep.name.under.example.org.", "x.", "."];
+    let hosts = ["www", "WWW", "mail", "_sip._tcp", "a.b.c.d", "ns1", "*", "xn--bcher-kva", "label-with-63-octets-xxxxxxxxxxxxxxxxxxxxxxxxxxxxxxxxxxxxxxxxxx"];
+    let z = zones[rng.random_range(0..zones.len())];
+    if rng.random_bool(0.15) {
+        return nm(z);
+    }
+    let h = hosts[rng.random_range(0..hosts.len())];
+    Name::from_ascii(if z == "." { format!("{h}.") } else { format!("{h}.{z}") }).unwrap()
+}
+
+fn random_message(rng: &mut StdRng, recs: &[Record], big: bool) -> Message {
+    let mut m = Message::new(rng.random(), if rng.random_bool(0.7) { MessageType::Response } else { MessageType::Query },
+        [OpCode::Query, OpCode::Status, OpCode::Notify, OpCode::Update][rng.random_range(0..4)]);
+    m.metadata.authoritative = rng.random_bool(0.5);
+    m.metadata.truncation = rng.random_bool(0.1);
+    m.metadata.recursion_desired = rng.random_bool(0.5);
+    m.metadata.recursion_available = rng.random_bool(0.5);
+    m.metadata.authentic_data = rng.random_bool(0.3);
+    m.metadata.checking_disabled = rng.random_bool(0.3);
+    let with_edns = rng.random_bool(0.5);
+    let rcodes = if with_edns { vec![0u16, 1, 2, 3, 4, 5, 9, 10, 16, 17, 18, 22, 23] } else { vec![0u16, 1, 2, 3, 4, 5, 9, 10] };
+    m.metadata.response_code = ResponseCode::from(0, 0); // placeholder
+    let rc = rcodes[rng.random_range(0..rcodes.len())];
+    m.metadata.response_code = ResponseCode::from((rc >> 4) as u8, (rc & 0xF) as u8);
+    if rng.random_bool(0.9) {
+        m.add_query(Query::new(random_name(rng), [RecordType::A, RecordType::AAAA, RecordType::MX, RecordType::ANY, RecordType::SOA][rng.random_range(0..5)]));
+    }
+    if big && rng.random_bool(0.5) {
+        // few compression candidates before offset 0x3FFF, fresh names (each written twice) behind it:
+        // a candidate stored at an offset that does not fit 14 bits would corrupt the second copy
+        let owner = random_name(rng);
+        for k in 0..70u32 {
+            m.add_answer(Record::from_rdata(owner.clone(), k, RData::NULL(NULL::with(vec![k as u8; 240]))));
+        }
+        for k in 0..10 {
+            let late = Name::from_ascii(format!("late{k}.Beyond-16K.example.net.")).unwrap();
+            for j in 0..2u32 {
+                m.add_authority(Record::from_rdata(late.clone(), j, RData::NULL(NULL::with(vec![j as u8; 3]))));
+            }
+        }
+    }
+    let n = if big { rng.random_range(150..400) } else { rng.random_range(0..14) };
+    for _ in 0..n {
+        let mut r = recs[rng.random_range(0..recs.len())].clone();
+        r.name = random_name(rng);
+        r.ttl = rng.random_range(0..100_000);
+        match rng.random_range(0..3) {
+            0 => m.add_answer(r),
+            1 => m.add_authority(r),
+            _ => m.add_additional(r),
+        };
+    }
+    if with_edns {
+        let mut e = Edns::new();
+        e.set_max_payload([512u16, 1232, 4096, 65535][rng.random_range(0..4)]);
+        e.set_dnssec_ok(rng.random_bool(0.5));
+        e.set_rcode_high((rc >> 4) as u8);
+        if rng.random_bool(0.5) {
+            e.options_mut().insert(EdnsOption::Subnet(ClientSubnet::new("192.0.2.0".parse().unwrap(), 24, 0)));
+        }
+        if rng.random_bool(0.3) {
+            e.options_mut().insert(EdnsOption::Unknown(65001, vec![1, 2, 3]));
+        }
+        m.edns = Some(e);
+    }
+    if rng.random_bool(0.25) {
+        m.signature = Some(Box::new(Record::from_rdata(nm("key.example."), 0, TSIG::new(TsigAlgorithm::HmacSha256, 1_700_000_000 + rng.random_range(0..1000u64), 300, vec![0xAA; 32], m.metadata.id, None, vec![]))));
+    }
+    m
+}
+
+fn bytes_json(b: &[u8]) -> Value {
+    json!(b)
+}
+
+fn record_roundtrip(seed: u64, n_cases: usize, trace: &mut dyn io::Write) {
+    let mut rng = StdRng::seed_from_u64(seed ^ 0xC02);
+    let (recs, _types) = corpus_records();
+    let (corpus, _t) = corpus_messages(&mut rng);
+    for case in 0..n_cases {
+        let id = format!("s{seed}-{case}");
+        // A. value -> bytes -> value
+        let big = case % 97 == 96;
+        let m = random_message(&mut rng, &recs, big);
+        let enc = catch_unwind(AssertUnwindSafe(|| m.to_vec()));
+        match enc {
+            Ok(Ok(bytes)) => {
+                let dec = catch_unwind(AssertUnwindSafe(|| Message::from_vec(&bytes)));
+                let (decoded, diffs) = match &dec {
+                    Ok(Ok(m2)) => (true, messages_equal(&m, m2)),
+                    _ => (false, vec!["undecodable"]),
+                };
+                writeln!(trace, "{}", json!({"ev":"rt1","case":id,"encoded":true,"decoded":decoded,"equal":diffs.is_empty(),"diffs":diffs,"len":bytes.len(),
+                    "records": m.answers.len() + m.authorities.len() + m.additionals.len()})).unwrap();
+                // layout: every question / owner name of the encoding must MEAN the original name
+                if let Some(w) = walk(&bytes) {
+                    let mut originals: Vec<&Name> = m.queries.iter().map(|q| &q.name).collect();
+                    for r in m.answers.iter().chain(m.authorities.iter()).chain(m.additionals.iter()) {
+                        originals.push(&r.name);
+                    }
+                    // OPT / TSIG owners are written behind the additionals
+                    let n = originals.len().min(w.name_ats.len());
+                    // sample the names of big messages (the whole buffer travels with the event)
+                    let step = if bytes.len() > 4000 { 17 } else { 1 };
+                    let mut names: Vec<Value> = (0..n).step_by(step).map(|k| json!({"at": w.name_ats[k], "labels": labels_json(originals[k])})).collect();
+                    if step > 1 {
+                        // and the names written behind offset 0x3FFF
+                        for k in (0..n).filter(|k| w.name_ats[*k] >= 0x3FFF).take(40) {
+                            names.push(json!({"at": w.name_ats[k], "labels": labels_json(originals[k])}));
+                        }
+                    }
+                    if bytes.len() <= 4000 || case % 485 == 96 {
+                        writeln!(trace, "{}", json!({"ev":"layout","case":id,"buf":bytes_json(&bytes),"names":names})).unwrap();
+                    }
+                    let types: Vec<u16> = w.recs.iter().map(|r| r.0).collect();
+                    let opt_ttl_high = w.recs.iter().find(|r| r.0 == 41).map(|r| (r.3 >> 24) as u64);
+                    writeln!(trace, "{}", json!({"ev":"place","case":id,"counts":w.counts,"types":types,"rcodeLow":(bytes[3] & 0x0F),
+                        "rcode": u16::from(m.metadata.response_code),"optTtlHigh": opt_ttl_high.map(|x| x as i64).unwrap_or(-1),
+                        "trailing": bytes.len() - w.end,
+                        "inCounts":[m.queries.len(), m.answers.len(), m.authorities.len(), m.additionals.len() + m.edns.is_some() as usize + m.signature.is_some() as usize]})).unwrap();
+                }
+            }
+            Ok(Err(e)) => {
+                writeln!(trace, "{}", json!({"ev":"rt1","case":id,"encoded":false,"decoded":false,"equal":false,"diffs":["encode-error"],"error":e.to_string(),"len":0,"records":0})).unwrap();
+            }
+            Err(_) => {
+                writeln!(trace, "{}", json!({"ev":"rt1","case":id,"encoded":false,"decoded":false,"equal":false,"diffs":["PANIC"],"len":0,"records":0})).unwrap();
+            }
+        }
+        // B. accepted bytes -> value -> bytes -> value, RDATA preserved
+        let b = if case % 5 == 0 { corpus[rng.random_range(0..corpus.len())].clone() } else { mutate(&mut rng, &corpus) };
+        let r = catch_unwind(AssertUnwindSafe(|| -> Option<Value> {
+            let m1 = Message::from_vec(&b).ok()?;
+            let b2 = match m1.to_vec() {
+                Ok(x) => x,
+                Err(e) => return Some(json!({"ev":"rt2","case":id,"reencoded":false,"error":e.to_string(),"equal":false,"truncated":false,"rdataPreserved":true,"compared":0})),
+            };
+            let m2 = match Message::from_vec(&b2) {
+                Ok(x) => x,
+                Err(e) => return Some(json!({"ev":"rt2","case":id,"reencoded":true,"redecoded":false,"error":e.to_string(),"equal":false,"truncated":false,"rdataPreserved":true,"compared":0})),
+            };
+            let diffs = messages_equal(&m1, &m2);
+            let mut preserved = true;
+            let mut compared = 0;
+            let mut bad_type = 0u16;
+            if let (Some(w1), Some(w2)) = (walk(&b), walk(&b2)) {
+                // OPT and TSIG are re-synthesised at the end: compare the others in order
+                let f = |w: &Walk| -> Vec<(u16, usize, usize)> { w.recs.iter().filter(|r| r.0 != 41 && r.0 != 250).map(|r| (r.0, r.1, r.2)).collect() };
+                for (x, y) in f(&w1).iter().zip(f(&w2).iter()) {
+                    if x.0 != y.0 {
+                        break;
+                    }
+                    let rd1 = &b[x.1..x.2];
+                    let rd2 = &b2[y.1..y.2];
+                    if nameless(x.0) || (uncompressible_names(x.0) && !rd1.iter().any(|o| *o >= 0xC0)) {
+                        compared += 1;
+                        if rd1 != rd2 {
+                            preserved = false;
+                            bad_type = x.0;
+                        }
+                    }
+                }
+            }
+            Some(json!({"ev":"rt2","case":id,"reencoded":true,"redecoded":true,"equal":diffs.is_empty(),"diffs":diffs,"truncated":m2.metadata.truncation,
+                "rdataPreserved":preserved,"badType":bad_type,"compared":compared,"len":b.len()}))
+        }));
+        match r {
+            Ok(Some(e)) => writeln!(trace, "{e}").unwrap(),
+            Ok(None) => {}
+            Err(_) => writeln!(trace, "{}", json!({"ev":"rt2","case":id,"reencoded":false,"error":"PANIC","equal":false,"truncated":false,"rdataPreserved":false,"compared":0,"bytes":b})).unwrap(),
+        }
+    }
+}
+
 fn main() {
     let args: Vec<String> = std::env::args().collect();
     let mode = args.get(1).map(String::as_str).unwrap_or("");
@@ -413,7 +702,9 @@ fn main() {
     };
     let stdout = io::stdout();
     let mut out = io::BufWriter::new(stdout.lock());
-    std::panic::set_hook(Box::new(|_| {}));
+    if std::env::var("VERIF_SHOW_PANICS").is_err() {
+        std::panic::set_hook(Box::new(|_| {}));
+    }
     match mode {
         "replay-names" => {
             for (ln, line) in io::stdin().lock().lines().enumerate() {
@@ -485,6 +776,10 @@ fn main() {
                     writeln!(trace, "{e}").unwrap();
                 }
             }
+        }
+        "record-roundtrip" => {
+            record_roundtrip(seed, n_cases, &mut trace);
+            writeln!(out, "{}", json!({"cases": n_cases})).unwrap();
         }
         _ => {
             eprintln!("usage: drive_wire replay-names|record-decode|record-roundtrip");
